@@ -102,6 +102,7 @@ func explore(ld *Loaded, spec HarnessSpec, tier string, seed int64, workers int,
 	var wg sync.WaitGroup
 	var solvers []*Solver
 	var emu sync.Mutex
+	restarts := 0
 	for w := 0; w < workers; w++ {
 		sv := newSolverPair(spec.Profile, tier, seed)
 		if logSMT != "" && w == 0 {
@@ -154,6 +155,23 @@ func explore(ld *Loaded, spec HarnessSpec, tier string, seed int64, workers int,
 
 				st := &State{e: e, solver: sv, prefix: prefix, globals: map[*ssa.Global]*value{}, covers: map[string]bool{}, funcs: map[string]int{}, deadline: deadline}
 				outcome := e.runPath(st, hfn)
+				if outcome.kind == "solver-lost" {
+					// restart the back ends of this worker and redo the path (at most a few times per harness)
+					sv.Kill()
+					sv = newSolverPair(spec.Profile, tier, seed)
+					e.mu.Lock()
+					solvers = append(solvers, sv)
+					e.active--
+					restarts++
+					if restarts <= 20 {
+						e.pushWork(prefix)
+					} else {
+						res.Outcomes["unknown"]++
+						res.Msgs["unknown: solver back end lost repeatedly"]++
+					}
+					e.mu.Unlock()
+					continue
+				}
 				var rec *PathRec
 				if outcome.kind == "ok" || outcome.kind == "panic" || outcome.kind == "unsupported" {
 					// a model of the final path condition: witness for trace validation / panic confirmation
@@ -230,6 +248,8 @@ func (e *Engine) runPath(st *State, fn *ssa.Function) (out pathEnd) {
 	defer func() {
 		if r := recover(); r != nil {
 			switch r := r.(type) {
+			case solverLost:
+				out = pathEnd{kind: "solver-lost", msg: r.msg}
 			case pathEnd:
 				out = r
 			case unsupported:
